@@ -35,6 +35,12 @@ Expected(e) ==
       \* (kind "sec": bare octets, no prefix to disagree with the network)
       [] e.op = "keyaddr" -> IF e.kind # "sec" /\ ~KeyNetwork(e.kind, FromHex(e.prefix), e.net).ok THEN Refusal
                              ELSE [refused |-> FALSE, v |-> ToHex(AddressEncode(SpkOfKey(e.fn, FromHex(e.sec)), ClassOf(e.net)))]
+      \* several keys in one script: every key that names a network type names the same one, and the declared one when a network is declared
+      [] e.op = "multikey" -> LET types == {PrefixType(e.keys[k].kind, FromHex(e.keys[k].prefix)) : k \in {j \in 1..Len(e.keys) : e.keys[j].kind # "sec"}}
+                                  \* the first key sets the network where none is declared, and a key that names none is a mainnet key (the library's default)
+                                  eff == IF e.declared # "" THEN TypeOfNet(e.declared)
+                                         ELSE IF e.keys[1].kind = "sec" THEN "main" ELSE PrefixType(e.keys[1].kind, FromHex(e.keys[1].prefix)) IN
+                                [refused |-> \E t \in types : t # eff]
       \* a ScriptPubKey built by a constructor for a named network: it remembers that network and its address is that network's
       [] e.op = "ctor" -> [refused |-> FALSE, v |-> ToHex(AddressEncode(FromHex(e.spk), ClassOf(e.net))), net |-> e.net]
       \* BIP21 payment URIs: the text (UTF-8) parsed, and a request written
